@@ -142,10 +142,13 @@ def check_cmp(res, facts, e, v, N, s, paes):
         return None
 
     def whole_tag(t):
-        return t.op == "call" and re.search(r"tag::Tag<.*>>::from", t.name)
+        return t.op == "call" and re.search(r"tag::Tag<.*>>::(from|try_from|new|try_new)(::<.*>)?$", t.name)
     tail, tag = (a, b) if tail_of_payload(a) else (b, a)
-    if tag.op == "field" and tag.name == "tag" and whole_tag(tag.args[0]):
-        tag = tag.args[0]   # the Tag struct's only data field, unsliced
+    inner = tag.args[0] if tag.op == "field" and tag.name == "tag" else None
+    if inner is not None and inner.op == "tryok":
+        inner = inner.args[0]   # a fallible constructor whose error was propagated with `?`
+    if inner is not None and whole_tag(inner):
+        tag = inner   # the Tag struct's only data field, unsliced
     ok = bool(tail_of_payload(tail)) and whole_tag(tag)
     res.oblige(ok)
     res.inst("C03.R2", "%s: compare %s with %s" % (e.label, M.show(tail)[:120], M.short(tag.name) if tag.op == "call" else M.show(tag)[:80]))
